@@ -10,6 +10,7 @@ import facts as factsmod
 import rules_protocol as RP
 import rules_struct as RS
 import rules_hooks as RH
+import rules_contracts as RC
 
 ASSUME_COMMON = [
     "rustc's type checker, MIR construction and drop elaboration (facts are read from the compiler, -Zmir-opt-level=0)",
@@ -34,44 +35,63 @@ STRUCT = {
     "SUB-INPUT": RH.rule_sub_inputs,
 }
 
+# "K" = the contract automata that serve this property (spec/contract_map.py)
 PROP_RULES = {
-    "C04": ["MODE-PAIR", "MODE-PURE"],
-    "C05": ["D:POISON", "D:KEEP", "D:LIFO", "HOOKS-SAVE-REWIND", "HOOKS-WRITERS"],
-    "C06": ["D:ALT-LINEAR", "D:ALT-POS", "D:PFAIL"],
-    "C12": ["RECURSE"],
-    "C13": ["FREEZE", "STATICS", "OWN-STATE"],
-    "C18": ["HOOKS-WRITERS", "HOOKS-TOKEN", "HOOKS-SAVE-REWIND", "SUB-INPUT", "D:POISON", "D:KEEP"],
+    "C01": ["K", "D:POISON"],
+    "C02": ["K", "D:POISON"],
+    "C04": ["MODE-PAIR", "MODE-PURE", "K", "D:POISON"],
+    "C05": ["D:POISON", "D:KEEP", "D:LIFO", "HOOKS-SAVE-REWIND", "HOOKS-WRITERS", "K"],
+    "C06": ["D:ALT-LINEAR", "D:ALT-POS", "D:PFAIL", "K"],
+    "C08": ["K", "D:POISON", "D:ALT-LINEAR", "D:PFAIL"],
+    "C09": ["K", "D:POISON", "RECURSE"],
+    "C11": ["K", "D:ALT-LINEAR", "D:ALT-POS", "D:PFAIL"],
+    "C12": ["RECURSE", "K"],
+    "C13": ["FREEZE", "STATICS", "OWN-STATE", "K"],
+    "C14": ["K"],
+    "C15": ["K", "SUB-INPUT"],
+    "C16": ["K", "SUB-INPUT", "D:ALT-LINEAR", "D:PFAIL"],
+    "C17": ["K", "D:ALT-LINEAR", "D:ALT-POS"],
+    "C18": ["HOOKS-WRITERS", "HOOKS-TOKEN", "HOOKS-SAVE-REWIND", "SUB-INPUT", "D:POISON", "D:KEEP", "K"],
     "C19": ["UNSAFE-INV", "MAYBEUNINIT"],
-    "C20": ["D:PFAIL", "RECURSE"],
+    "C20": ["D:PFAIL", "RECURSE", "K"],
 }
 
-# rules that only exist when a feature is compiled in: rule -> required feature
-NEEDS_FEATURE = {}
+# properties whose typestate disciplines are restricted to the bodies of their own contract groups
+# (the crate-wide properties C04 C05 C06 C18 C20 look at every body)
+SCOPED = {"C01", "C02", "C08", "C09", "C11", "C15", "C16", "C17"}
 
 
-def eval_rules(names, config="all"):
+def eval_rules(names, config="all", pid=None):
     facts = factsmod.load(config)
     res = []
     disc = [n[2:] for n in names if n.startswith("D:")]
     if disc:
         run = RP.get_run(config)
-        res.extend(RP.discipline(run, disc))
+        pred = None
+        if pid in SCOPED:
+            own = set(RC.bodies_for(run, pid))
+            import re as _re
+            pred = lambda u, own=own: _re.sub(r"(::\{closure#\d+\})+", "", u) in own
+        res.extend(RP.discipline(run, disc, pred))
     for n in names:
         if n.startswith("D:"):
+            continue
+        if n == "K":
+            res.append(RC.rule_contracts(pid, config))
             continue
         if n == "RECURSE":
             res.append(RS.rule_recurse(facts, has_stacker="stacker" in facts.features))
         else:
             res.append(STRUCT[n](facts))
     # keep declared order
-    order = {(n[2:] if n.startswith("D:") else n): i for i, n in enumerate(names)}
+    order = {(n[2:] if n.startswith("D:") else ("CONTRACT" if n == "K" else n)): i for i, n in enumerate(names)}
     res.sort(key=lambda r: order.get(r.rule, 99))
     return res
 
 
 def make_prop(pid):
     def run(tier):
-        results = eval_rules(PROP_RULES[pid], "all")
+        results = eval_rules(PROP_RULES[pid], "all", pid)
         if tier == "thorough":
             import thorough
             results.extend(thorough.extra(pid, PROP_RULES[pid]))
@@ -87,6 +107,11 @@ def run_all_rules(config="all"):
     names = []
     for rs in PROP_RULES.values():
         for n in rs:
-            if n not in names:
+            if n not in names and n != "K":
                 names.append(n)
-    return eval_rules(names, config)
+    res = eval_rules(names, config)
+    for pid in PROP_RULES:
+        if "K" in PROP_RULES[pid]:
+            res.append(RC.rule_contracts(pid, config))
+    res.append(RC.rule_contracts(None, config))
+    return res
